@@ -38,7 +38,8 @@
  * build up to the real 512000-byte limit.  Lines: the calls above without the thread id, and
  * Burst <n> <len> <gap_us> | Hold | Release | Slow <us> | Sleep <us>.
  * Call-level events, serialised by a mutex: Inv [op,arg,size] before a call, Ret [op] [rc] after it,
- * Write [m] from the target's logger, Lost [n] for an "n messages lost" report.
+ * Write [m] from the target's logger, Lost [n] for an "n messages lost" report; Hung if the history does not
+ * end within the watchdog time (e.g. a qb_log_fini that never returns).
  */
 #include "os_base.h"
 #include <pthread.h>
@@ -46,6 +47,7 @@
 #include <sys/wait.h>
 #include <sys/syscall.h>
 #include <fcntl.h>
+#include <signal.h>
 #include <dirent.h>
 #include <qb/qbdefs.h>
 #include <qb/qblist.h>
@@ -363,8 +365,8 @@ static int all_others_sleeping(void)
 /* wait until thread tid has parked or terminated; 0 = ok, -1 = it does not get there.
  * The watchdog is WATCHDOG_MS; when every thread but the scheduler is seen asleep in SLEEP_POLLS consecutive
  * polls of POLL_MS nobody is left to wake the awaited thread, so the verdict comes much sooner. */
-#define POLL_MS 20
-#define SLEEP_POLLS 15
+#define POLL_MS 10
+#define SLEEP_POLLS 6
 static int await(int tid)
 {
 	int asleep = 0;
@@ -503,10 +505,24 @@ static void free_hook(int point, const void *obj, long a, long b)
 	if (us) usleep(us);
 }
 
+/* free mode has no scheduler to notice a hang (a qb_log_fini that never returns): an alarm ends the history
+ * with an event that is no step of the specification */
+#define FREE_WATCHDOG_S 30
+static int trace_fd = -1;
+static void free_hung(int sig)
+{
+	static const char ev[] = "{\"e\":\"Hung\",\"a\":[],\"r\":[]}\n";
+	if (trace_fd >= 0) (void)!write(trace_fd, ev, sizeof(ev) - 1);
+	_exit(0);
+}
+
 static int run_free(char **lines, int n)
 {
 	long seq = 0;
 	free_mode = 1;
+	trace_fd = fileno(vt_out);
+	signal(SIGALRM, free_hung);
+	alarm(FREE_WATCHDOG_S);
 	qb_verif_hook_fn = free_hook;
 	for (int i = 0; i < n; i++) {
 		struct vt_line L;
